@@ -106,11 +106,15 @@ theorem consistent_le_iter (G : Graph) (A : Assign) (h : Consistent G A) : ∀ k
 
 /-- if the iteration has reached a fixpoint, the solution is consistent and is the greatest consistent
 assignment: a type is `Send`/`Sync` in the solution iff some consistent assignment says so -/
-theorem solve_greatest (G : Graph) (hfix : step G (solve G) = solve G) :
-    Consistent G (solve G) ∧ ∀ A, Consistent G A → LE A (solve G) := by
+theorem iter_greatest (G : Graph) (k : Nat) (hfix : step G (iter G k) = iter G k) :
+    Consistent G (iter G k) ∧ ∀ A, Consistent G A → LE A (iter G k) := by
   refine ⟨?_, fun A h => consistent_le_iter G A h _⟩
   unfold Consistent
   rw [hfix]
   exact ⟨rfl, fun i => imp2_refl _⟩
+
+theorem solve_greatest (G : Graph) (hfix : step G (solve G) = solve G) :
+    Consistent G (solve G) ∧ ∀ A, Consistent G A → LE A (solve G) :=
+  iter_greatest G _ hfix
 
 end AutoTrait
